@@ -61,6 +61,9 @@ type FConn struct {
 	PreSend func(pkt packet.Generic)
 	// PostRecv runs after a packet was received, before it is returned.
 	PostRecv func(pkt packet.Generic)
+	// CloseDelay keeps Close from returning for that long after the carrier has
+	// been closed (a transport whose close takes time: TLS, WebSocket handshake).
+	CloseDelay time.Duration
 
 	mu      sync.Mutex
 	faults  []Fault
@@ -164,7 +167,11 @@ func (c *FConn) Receive() (packet.Generic, error) {
 func (c *FConn) Close() error {
 	c.Log.Add(c.Name, "close", nil, "")
 	c.closedOnce.Do(func() { close(c.closedCh) })
-	return c.Inner.Close()
+	err := c.Inner.Close()
+	if c.CloseDelay > 0 {
+		time.Sleep(c.CloseDelay)
+	}
+	return err
 }
 
 // CloseCalled is closed once Close has been called on the wrapper.
